@@ -157,7 +157,7 @@ deriving DecidableEq, Repr
 inductive SOp | push (v : Int) | pop
 deriving DecidableEq, Repr
 
-inductive Ret | nil | ok (v : Int) | empty
+inductive Ret | nil | ok (v : Int) | empty | full
 deriving DecidableEq, Repr
 
 def qApply (q : List Int) : QOp → List Int × Ret
@@ -170,9 +170,25 @@ def sApply (q : List Int) : SOp → List Int × Ret
   | .push v => (q ++ [v], .nil)
   | .pop => (match q.getLast? with | none => (q, .empty) | some a => (q.dropLast, .ok a))
 
+/-- a BOUNDED wrapped queue (capacity `cap`): an insertion into a full structure reports ErrQueueIsFull and
+    changes nothing — "over any wrapped queue/stack" includes objects whose Put/Offer can fail -/
+def qApplyB (cap : Nat) (q : List Int) : QOp → List Int × Ret
+  | .put v => if q.length < cap then (q ++ [v], .nil) else (q, .full)
+  | .offer v => if q.length < cap then (q ++ [v], .nil) else (q, .full)
+  | .take => (match q with | [] => ([], .empty) | a :: t => (t, .ok a))
+  | .poll => (match q with | [] => ([], .empty) | a :: t => (t, .ok a))
+
+def sApplyB (cap : Nat) (q : List Int) : SOp → List Int × Ret
+  | .push v => if q.length < cap then (q ++ [v], .nil) else (q, .full)
+  | .pop => (match q.getLast? with | none => (q, .empty) | some a => (q.dropLast, .ok a))
+
 /-- the code as it is now (after fix 8e68593): every method takes the write lock -/
 def queueSys : Sys (List Int) QOp Ret := ⟨[], qApply, fun _ => .excl⟩
 def stackSys : Sys (List Int) SOp Ret := ⟨[], sApply, fun _ => .excl⟩
+
+/-- the same wrappers over a bounded wrapped object -/
+def boundedQueueSys (cap : Nat) : Sys (List Int) QOp Ret := ⟨[], qApplyB cap, fun _ => .excl⟩
+def boundedStackSys (cap : Nat) : Sys (List Int) SOp Ret := ⟨[], sApplyB cap, fun _ => .excl⟩
 
 /-- the pinned code: Take/Poll (Pop) under RLock -/
 def queueSysPinned : Sys (List Int) QOp Ret :=
@@ -191,6 +207,18 @@ def pushed : List SOp → List Int
   | .push v :: r => v :: pushed r
   | _ :: r => pushed r
 
+/-- values whose insertion was accepted (returned nil), in order -/
+def acceptedQ : List QOp → List Ret → List Int
+  | .put v :: ops, .nil :: rets => v :: acceptedQ ops rets
+  | .offer v :: ops, .nil :: rets => v :: acceptedQ ops rets
+  | _ :: ops, _ :: rets => acceptedQ ops rets
+  | _, _ => []
+
+def acceptedS : List SOp → List Ret → List Int
+  | .push v :: ops, .nil :: rets => v :: acceptedS ops rets
+  | _ :: ops, _ :: rets => acceptedS ops rets
+  | _, _ => []
+
 def okVals : List Ret → List Int
   | [] => []
   | .ok v :: r => v :: okVals r
@@ -199,7 +227,7 @@ def okVals : List Ret → List Int
 /-! ### driver side: parsing, a seeded scheduler over `step`, monitors -/
 
 def showRet : Ret → String
-  | .nil => "nil" | .ok v => s!"ok {v}" | .empty => "empty"
+  | .nil => "nil" | .ok v => s!"ok {v}" | .empty => "empty" | .full => "full"
 
 def parseQOp (tok : String) : Option QOp :=
   match tok.splitOn ":" with
@@ -251,6 +279,7 @@ structure Sim (σ Op : Type) where
   scripts : List (List Op)     -- remaining calls of each thread
   rng : Nat
   cyclic : Nat               -- threads ≥ cyclic repeat their script forever (consumers)
+  retry : Bool := false      -- threads < cyclic re-issue an insertion that reported `full`
 
 /-- seeded scheduler: pick a thread, perform its next action if enabled -/
 def simLoop {σ Op : Type} (sys : Sys σ Op Ret) (n : Nat) (stop : Sim σ Op → Bool) : Nat → Sim σ Op → Sim σ Op
@@ -275,6 +304,11 @@ def simLoop {σ Op : Type} (sys : Sys σ Op Ret) (n : Nat) (stop : Sim σ Op →
       | some s' =>
         let scripts := match a with
           | .inv _ op => m.scripts.set t (if t ≥ m.cyclic then (m.scripts.getD t []).drop 1 ++ [op] else (m.scripts.getD t []).drop 1)
+          | .rel _ =>
+            -- an insertion that reported `full` is retried by its thread (producers of the stress cases)
+            (match s'.done.getLast? with
+             | some d => if d.ret == .full && t < m.cyclic && m.retry then m.scripts.set t (d.op :: m.scripts.getD t []) else m.scripts
+             | none => m.scripts)
           | _ => m.scripts
         simLoop sys n stop fuel { m with s := s', scripts := scripts }
 
@@ -298,53 +332,67 @@ def isSorted : List Int → Bool
   | a :: b :: r => a < b && isSorted (b :: r)
   | _ => true
 
+/-- `ringK` = the bounded, deliberately non-thread-safe ring buffer of capacity K defined in the harness -/
+def ringCap (impl : String) : Option Nat :=
+  if impl.startsWith "ring" then (impl.drop 4).toString.toNat? else none
+
+def sysQ (impl : String) : Sys (List Int) QOp Ret :=
+  match ringCap impl with | some k => boundedQueueSys k | none => queueSys
+def sysS (impl : String) : Sys (List Int) SOp Ret :=
+  match ringCap impl with | some k => boundedStackSys k | none => stackSys
+
 /-- monitors of the stress cases evaluated on the model's own run (queue): conservation in linearization
-    order, no duplicates among removed values, everything removed, every completed record consistent -/
-def queueMonitorsOk (s : State (List Int) QOp Ret) (total : Nat) : Bool :=
+    order (removed ++ content = accepted), everything removed, legal sequential history, stamps consistent -/
+def queueMonitorsOk (sys : Sys (List Int) QOp Ret) (s : State (List Int) QOp Ret) (total : Nat) : Bool :=
   let ops := s.lin.map (·.op)
   let rets := s.lin.map (·.ret)
   let removed := okVals rets
-  decide (removed ++ s.obj = offered ops) && decide (removed.length = total) &&
-  decide ((seqRun qApply [] ops).2 = rets) &&
+  decide (removed ++ s.obj = acceptedQ ops rets) && decide (removed.length = total) &&
+  decide ((seqRun sys.apply [] ops).2 = rets) &&
   s.done.all (fun d => decide (d.invAt < d.linAt) && decide (d.linAt < d.retAt))
 
-def stackMonitorsOk (s : State (List Int) SOp Ret) (total : Nat) : Bool :=
+def stackMonitorsOk (sys : Sys (List Int) SOp Ret) (s : State (List Int) SOp Ret) (total : Nat) : Bool :=
   let ops := s.lin.map (·.op)
   let rets := s.lin.map (·.ret)
   let removed := okVals rets
-  decide (removed.length = total) && decide ((seqRun sApply [] ops).2 = rets) &&
-  isSorted (removed.mergeSort (· ≤ ·)) && isSorted ((pushed ops).mergeSort (· ≤ ·)) &&
-  decide (removed.mergeSort (· ≤ ·) = (pushed ops).mergeSort (· ≤ ·)) &&
+  let acc := acceptedS ops rets
+  decide (removed.length = total) && decide ((seqRun sys.apply [] ops).2 = rets) &&
+  isSorted (removed.mergeSort (· ≤ ·)) && isSorted (acc.mergeSort (· ≤ ·)) &&
+  decide (removed.mergeSort (· ≤ ·) = acc.mergeSort (· ≤ ·)) &&
   s.done.all (fun d => decide (d.invAt < d.linAt) && decide (d.linAt < d.retAt))
 
-/-- `stress q|s <impl> p=P c=C n=N seed=S`: P producers offer N distinct values each, C consumers remove
-    until everything is out.  The model runs a scaled-down instance (at most ~240 values) of the same
-    program on the transition system under a seeded scheduler and evaluates the monitors on it. -/
-def stressCase (kind : String) (toks : List String) : String :=
+/-- `stress q|s <impl> p=P c=C n=N seed=S`: P producers offer N distinct values each (retrying while a bounded
+    wrapped object reports full), C consumers remove until everything is out.  The model runs a scaled-down
+    instance (at most ~240 values) of the same program on the transition system under a seeded scheduler and
+    evaluates the monitors on it. -/
+def stressCase (kind impl : String) (toks : List String) : String :=
   let p := field toks "p"; let c := field toks "c"; let n := field toks "n"; let seed := field toks "seed"
   if p = 0 ∨ c = 0 then "bad-case" else
-  let n' := min n (max 1 (240 / p))
+  let bounded := (ringCap impl).isSome
+  let n' := min n (max 1 ((if bounded then 96 else 240) / p))
   let total := p * n'
-  let fuel := (p + c) * 5 * (total * 2 + c * 4) * 40 + 8192
+  let fuel := (p + c) * 5 * (total * 2 + c * 4) * (if bounded then 400 else 40) + 8192
   if kind = "q" then
+    let sys := sysQ impl
     let scripts : List (List QOp) := (List.range (p + c)).map fun t =>
       if t < p then (List.range n').map (fun i => if i % 2 = 0 then QOp.offer (Int.ofNat (t * 100000 + i)) else QOp.put (Int.ofNat (t * 100000 + i)))
       else [QOp.poll, QOp.take]
-    let m := simLoop queueSys (p + c) (drained p total) fuel ⟨initState queueSys, scripts, seed + 1, p⟩
+    let m := simLoop sys (p + c) (drained p total) fuel { s := initState sys, scripts := scripts, rng := seed + 1, cyclic := p, retry := true }
     -- consumers poll until the run is drained (or the generous fuel ends); what matters is that every value
-    -- offered came out exactly once in FIFO order and the structure is empty
-    if queueMonitorsOk m.s total then s!"ok offered={p * n} removed={p * n}" else "viol model-monitor"
+    -- accepted came out exactly once in FIFO order and the structure is empty
+    if queueMonitorsOk sys m.s total then s!"ok offered={p * n} removed={p * n}" else "viol model-monitor"
   else
+    let sys := sysS impl
     let scripts : List (List SOp) := (List.range (p + c)).map fun t =>
       if t < p then (List.range n').map (fun i => SOp.push (Int.ofNat (t * 100000 + i)))
       else [SOp.pop]
-    let m := simLoop stackSys (p + c) (drained p total) fuel ⟨initState stackSys, scripts, seed + 1, p⟩
-    if stackMonitorsOk m.s total then s!"ok offered={p * n} removed={p * n}" else "viol model-monitor"
+    let m := simLoop sys (p + c) (drained p total) fuel { s := initState sys, scripts := scripts, rng := seed + 1, cyclic := p, retry := true }
+    if stackMonitorsOk sys m.s total then s!"ok offered={p * n} removed={p * n}" else "viol model-monitor"
 
 /-- `hist q|s <impl> t=T k=K seed=S`: T threads, K random calls each, free-running; the real history is
     searched for a linearization by the harness.  The model runs the same kind of program and checks that
     its own linearization is a legal sequential history that respects the time stamps. -/
-def histCase (kind : String) (toks : List String) : String :=
+def histCase (kind impl : String) (toks : List String) : String :=
   let t := field toks "t"; let k := field toks "k"; let seed := field toks "seed"
   if t = 0 then "bad-case" else
   let fuel := t * 5 * (t * k) * 40 + 4096
@@ -353,15 +401,17 @@ def histCase (kind : String) (toks : List String) : String :=
   if kind = "q" then
     let scripts : List (List QOp) := (List.range t).map fun th =>
       (List.range k).map (fun i => if (lcg (seed * 131 + th * 17 + i) / 65536) % 2 = 0 then QOp.offer (Int.ofNat (th * 100 + i)) else QOp.poll)
-    let m := simLoop queueSys t (allDone t) fuel ⟨initState queueSys, scripts, seed + 1, t⟩
-    let ok := decide ((seqRun qApply [] (m.s.lin.map (·.op))).2 = m.s.lin.map (·.ret)) && okTimes m.s.done &&
+    let sys := sysQ impl
+    let m := simLoop sys t (allDone t) fuel { s := initState sys, scripts := scripts, rng := seed + 1, cyclic := t }
+    let ok := decide ((seqRun sys.apply [] (m.s.lin.map (·.op))).2 = m.s.lin.map (·.ret)) && okTimes m.s.done &&
               decide (m.s.done.length = t * k)
     if ok then s!"ok linearizable ops={t * k}" else "viol model-monitor"
   else
     let scripts : List (List SOp) := (List.range t).map fun th =>
       (List.range k).map (fun i => if (lcg (seed * 131 + th * 17 + i) / 65536) % 2 = 0 then SOp.push (Int.ofNat (th * 100 + i)) else SOp.pop)
-    let m := simLoop stackSys t (allDone t) fuel ⟨initState stackSys, scripts, seed + 1, t⟩
-    let ok := decide ((seqRun sApply [] (m.s.lin.map (·.op))).2 = m.s.lin.map (·.ret)) && okTimesS m.s.done &&
+    let sys := sysS impl
+    let m := simLoop sys t (allDone t) fuel { s := initState sys, scripts := scripts, rng := seed + 1, cyclic := t }
+    let ok := decide ((seqRun sys.apply [] (m.s.lin.map (·.op))).2 = m.s.lin.map (·.ret)) && okTimesS m.s.done &&
               decide (m.s.done.length = t * k)
     if ok then s!"ok linearizable ops={t * k}" else "viol model-monitor"
 
@@ -377,10 +427,10 @@ def handle (line : String) : String :=
   let (head, body) := splitHead line
   let toks := (head.splitOn " ").filter (· ≠ "")
   match toks with
-  | "seq" :: "q" :: _ => seqCase queueSys parseQOp body
-  | "seq" :: "s" :: _ => seqCase stackSys parseSOp body
-  | "stress" :: kind :: _ => stressCase kind toks
-  | "hist" :: kind :: _ => histCase kind toks
+  | "seq" :: "q" :: impl :: _ => seqCase (sysQ impl) parseQOp body
+  | "seq" :: "s" :: impl :: _ => seqCase (sysS impl) parseSOp body
+  | "stress" :: kind :: impl :: _ => stressCase kind impl toks
+  | "hist" :: kind :: impl :: _ => histCase kind impl toks
   | _ => "bad-case"
 
 /-- spec-level oracle.  Sequential cases: the ideal deque.  Concurrent cases: the harness monitors print
@@ -390,12 +440,14 @@ def judge (line impl : String) : String :=
   let (head, body) := splitHead line
   let toks := (head.splitOn " ").filter (· ≠ "")
   match toks with
-  | "seq" :: "q" :: _ =>
-    if impl = specSeqCase qApply parseQOp body then "allowed agrees with the ideal FIFO queue"
-    else s!"violation ideal FIFO queue gives: {specSeqCase qApply parseQOp body}"
-  | "seq" :: "s" :: _ =>
-    if impl = specSeqCase sApply parseSOp body then "allowed agrees with the ideal LIFO stack"
-    else s!"violation ideal LIFO stack gives: {specSeqCase sApply parseSOp body}"
+  | "seq" :: "q" :: w :: _ =>
+    let spec := specSeqCase (sysQ w).apply parseQOp body
+    if impl = spec then "allowed agrees with the ideal (bounded) FIFO queue"
+    else s!"violation ideal FIFO queue gives: {spec}"
+  | "seq" :: "s" :: w :: _ =>
+    let spec := specSeqCase (sysS w).apply parseSOp body
+    if impl = spec then "allowed agrees with the ideal (bounded) LIFO stack"
+    else s!"violation ideal LIFO stack gives: {spec}"
   | _ =>
     if impl.startsWith "ok " then "allowed monitors silent"
     else s!"violation not a linearizable history: {impl}"
